@@ -19,7 +19,7 @@ import (
 	"runtime/debug"
 	"strings"
 	"syscall"
-
+	"time"
 )
 
 type wProto struct {
@@ -86,6 +86,14 @@ type worker struct {
 	stdout *bufio.Reader
 	stderr *bytes.Buffer
 	deaths int
+	hangs  int
+}
+
+func (w *worker) timeout() time.Duration {
+	if w.hangs > 0 {
+		return time.Second
+	}
+	return workerTimeout
 }
 
 func (w *worker) start() {
@@ -127,16 +135,39 @@ type WObs struct {
 	validate string
 }
 
+// a decode that does not answer within this time is a hang (the decode loop can spin
+// when a reader reports zero bytes consumed)
+const workerTimeout = 10 * time.Second
+
 func (w *worker) decode(b []byte) WObs {
 	if w.cmd == nil {
 		w.start()
 	}
-	_, err := io.WriteString(w.stdin, hex.EncodeToString(b)+"\n")
-	var line string
-	if err == nil {
-		line, err = w.stdout.ReadString('\n')
+	type ans struct {
+		line string
+		err  error
 	}
-	if err != nil {
+	ch := make(chan ans, 1)
+	go func(stdin io.Writer, stdout *bufio.Reader) {
+		_, err := io.WriteString(stdin, hex.EncodeToString(b)+"\n")
+		var line string
+		if err == nil {
+			line, err = stdout.ReadString('\n')
+		}
+		ch <- ans{line, err}
+	}(w.stdin, w.stdout)
+	var a ans
+	hung := false
+	select {
+	case a = <-ch:
+	case <-time.After(w.timeout()):
+		hung = true
+		w.hangs++
+		w.cmd.Process.Kill()
+		a = <-ch
+	}
+	line, err := a.line, a.err
+	if err != nil || hung {
 		// the worker died on this input
 		w.stdin.Close()
 		w.cmd.Wait()
@@ -148,6 +179,9 @@ func (w *worker) decode(b []byte) WObs {
 		w.deaths++
 		if w.deaths > 2000 {
 			panic("harness: decoder worker keeps dying: " + msg)
+		}
+		if hung {
+			return WObs{out: "panic", msg: "did not return (killed by the watchdog)"}
 		}
 		return WObs{out: "panic", msg: "process aborted: " + msg}
 	}
